@@ -34,15 +34,21 @@ CONSTS = {"LINK_STORE_NODE_FORMAT": ("stub_format", "fmt"), "LINK_STORE_NODE_TAR
           "LINK_STORE_NODE_PREVIOUS": ("spos_previous", "pos"), "LINK_STORE_FIRST_DATA_BLOCK": ("py_link_first_data_block", "N"),
           "LRU_TRIE_FIRST_DATA_BLOCK": ("py_first_data_block", "N"),
           "LRU_TRIE_NODE_OUTLINKS_BLOCK": ("pos_out", "pos"), "LRU_TRIE_NODE_INLINKS_BLOCK": ("pos_in", "pos")}
+# flag bits and the flags register (used by gen_triew.py)
+FLAGCONSTS = {"LRU_TRIE_NODE_FLAGS": "pos_flags", "LRU_TRIE_NODE_FLAG_PAGE": "flag_page", "LRU_TRIE_NODE_FLAG_CRAWLED": "flag_crawled",
+              "LRU_TRIE_NODE_FLAG_WEBENTITY_CREATION_RULE": "flag_rule", "LRU_TRIE_NODE_FLAG_NO_CHILD_WEBENTITIES": "flag_nochild",
+              "LRU_TRIE_NODE_FLAG_HAS_TAIL": "flag_has_tail", "LRU_TRIE_NODE_FLAG_IS_TAIL": "flag_is_tail"}
 
 COQT = {"N": "N", "oN": "option N", "bool": "bool", "bytes": "bytes", "obytes": "option bytes", "fvals": "list fval",
         "pos": "nat", "lnode": "py_lnode", "olnode": "option py_lnode", "listN": "list N",
         "counter": "list (option N * N)", "oNset": "list (option N)", "tnode": "py_node", "otnode": "option py_node",
-        "listB": "list bytes", "listT": "list py_node"}
+        "listB": "list bytes", "listT": "list py_node", "hist": "py_hist"}
 
 # attributes of the two node classes: name -> type; the setters are <prefix>_set_<attr>
 ATTRS = {"lnode": ("ln", {"block": "oN", "exists": "bool", "data": "fvals"}),
-         "tnode": ("nd", {"block": "oN", "exists": "bool", "tail": "bytes", "data": "fvals"})}
+         "tnode": ("nd", {"block": "oN", "exists": "bool", "tail": "bytes", "data": "fvals"}),
+         "hist": ("hs", {"lru": "bytes", "webentity": "oN", "webentity_prefix": "bytes", "webentity_position": "oN",
+                         "webentity_creation_rules": "listN", "page_was_created": "bool"})}
 
 PREAMBLE = r"""Record py_lnode := mk_ln { ln_block : option N; ln_exists : bool; ln_data : list fval }.
 Definition ln_set_block (v : option N) (n : py_lnode) := mk_ln v (ln_exists n) (ln_data n).
@@ -87,6 +93,15 @@ class Fn(object):
         if name not in CONSTS:
             raise Unsupported("constant %s" % name)
         return CONSTS[name]
+
+    def flag_args(self, call, env):
+        """(data term, register, bit) of flag / unflag / test (<obj>.data, LRU_TRIE_NODE_FLAGS, LRU_TRIE_NODE_FLAG_x)"""
+        d, ta = self.expr(call.args[0], env)
+        if ta != "fvals" or not all(isinstance(x, ast.Name) and x.id in FLAGCONSTS for x in call.args[1:]):
+            raise Unsupported("flag helper arguments in %s" % self.fn.name)
+        if call.args[1].id != "LRU_TRIE_NODE_FLAGS" or call.args[2].id == "LRU_TRIE_NODE_FLAGS":
+            raise Unsupported("flag helper register in %s" % self.fn.name)
+        return d, FLAGCONSTS[call.args[1].id], FLAGCONSTS[call.args[2].id]
 
     def coerce(self, a, ta, want):
         if ta == want:
@@ -187,6 +202,10 @@ class Fn(object):
                 raise Unsupported("len of %s" % ta)
             if isinstance(f, ast.Name) and f.id == "list" and len(e.args) == 1 and not e.keywords:
                 return self.expr(e.args[0], env)
+            if isinstance(f, ast.Name) and f.id == "test" and len(e.args) == 3 and not e.keywords:
+                # test(self.data, LRU_TRIE_NODE_FLAGS, <bit>): py_test of GenNode.v
+                d, reg, bit = self.flag_args(e, env)
+                return "(py_test %s (N.of_nat %s) %s)" % (d, reg, bit), "bool"
             if isinstance(f, ast.Name) and f.id == "lru_iter" and len(e.args) == 1 and not e.keywords:
                 a, ta = self.expr(e.args[0], env)
                 if ta != "bytes":
@@ -274,6 +293,11 @@ class Fn(object):
                 # return LRUTrieNode(self.storage, block=...): a new node object
                 t = "(let '(v__n, sg) := %s in %s)" % (self.tnode_ctor(s.value, env), self.ret("v__n", env))
                 return "(inl %s)" % t if self.sum_depth else t
+            elif isinstance(s.value, ast.Tuple) and len(s.value.elts) == 2 and (self.rtype or "").startswith("pair:"):
+                # return x, y: each element coerced to its declared type
+                _, w1, w2 = self.rtype.split(":")
+                (x1, t1), (x2, t2) = [self.expr(x, env) for x in s.value.elts]
+                a, ta = "(%s, %s)" % (self.coerce(x1, t1, w1), self.coerce(x2, t2, w2)), self.rtype
             else:
                 a, ta = self.expr(s.value, env)
             t = self.ret(self.coerce(a, ta, self.rtype), env)
@@ -293,9 +317,18 @@ class Fn(object):
             # an `if` without else whose body only assigns locals that exist already: the two paths join (no duplication of
             # what follows)
             names = [x.targets[0].id for x in s.body if isinstance(x, ast.Assign) and len(x.targets) == 1 and isinstance(x.targets[0], ast.Name)]
+            if getattr(self.tr, "join_calls", False):
+                # also: calls of non-raising methods that only change a local object (and the storage, for write)
+                for x in s.body:
+                    if isinstance(x, ast.Expr) and isinstance(x.value, ast.Call) and isinstance(x.value.func, ast.Attribute) \
+                            and isinstance(x.value.func.value, ast.Name) and env.get(x.value.func.value.id) in ("tnode", "hist"):
+                        sg_ = self.tr.sigs.get((env[x.value.func.value.id], x.value.func.attr))
+                        if sg_ and sg_["kind"] in ("node", "io") and self.has_sg:
+                            names.append(x.value.func.value.id)
             plain_test = not (isinstance(s.test, ast.Compare) and isinstance(s.test.ops[0], (ast.Is, ast.IsNot))) \
                 and not (isinstance(s.test, ast.Name) and env.get(s.test.id) == "obytes")
-            if not s.orelse and len(names) == len(s.body) and all(n in env for n in names) and plain_test and self.loop_k is None:
+            if not s.orelse and len(names) == len(s.body) and all(n in env for n in names) and plain_test \
+                    and (self.loop_k is None or getattr(self.tr, "join_calls", False)):
                 names = sorted(set(names))
                 vars_ = (["sg"] if self.has_sg else []) + ["v_%s" % n for n in names]
                 pat = "(" + ", ".join(vars_) + ")" if len(vars_) > 1 else vars_[0]
@@ -326,8 +359,23 @@ class Fn(object):
                 raise Unsupported("counter increment")
             n = s.target.value.id
             return "(let v_%s := py_counter_add %s %s v_%s in\n %s)" % (n, self.coerce(kx, tk, "oN"), d, n, nxt())
+        if isinstance(s, ast.AugAssign) and isinstance(s.op, ast.Add) and isinstance(s.target, ast.Name) and s.target.id in env:
+            # x += e on a local: bytes concatenation or natural-number addition
+            n = s.target.id
+            a, ta = self.expr(s.value, env)
+            if env[n] == "bytes" and ta == "bytes":
+                return "(let v_%s := (v_%s ++ %s) in\n %s)" % (n, n, a, nxt())
+            if env[n] == "N" and ta == "N":
+                return "(let v_%s := (N.add v_%s %s) in\n %s)" % (n, n, a, nxt())
+            raise Unsupported("augmented assignment to %s : %s" % (n, env[n]))
         if isinstance(s, ast.Assign) and len(s.targets) == 1:
             return self.assign(s.targets[0], s.value, env, nxt)
+        if isinstance(s, ast.Expr) and isinstance(s.value, ast.Call) and isinstance(s.value.func, ast.Name) \
+                and s.value.func.id in ("flag", "unflag") and len(s.value.args) == 3 and not s.value.keywords \
+                and ast.unparse(s.value.args[0]) == "self.data" and self.recv_type == "tnode":
+            # flag(self.data, LRU_TRIE_NODE_FLAGS, <bit>) / unflag(...): py_flag of GenNode.v / py_unflag
+            d, reg, bit = self.flag_args(s.value, env)
+            return "(let %s := nd_set_data (py_%s %s (N.of_nat %s) %s) %s in\n %s)" % (self.recv, s.value.func.id, d, reg, bit, self.recv, nxt())
         if isinstance(s, ast.Expr) and isinstance(s.value, ast.Call):
             return self.call_stmt(s.value, None, env, nxt)
         raise Unsupported("statement %s in %s" % (ast.dump(s)[:90], self.fn.name))
@@ -406,11 +454,27 @@ class Fn(object):
                     return "(let v_%s := (@nil (option N * N)) in\n %s)" % (n, nxt(dict(env, **{n: "counter"})))
                 if isinstance(f, ast.Name) and f.id == "set" and not v.args and not v.keywords:
                     return "(let v_%s := (@nil (option N)) in\n %s)" % (n, nxt(dict(env, **{n: "oNset"})))
+                if isinstance(f, ast.Name) and f.id == "LRUTrieWalkHistory" and len(v.args) == 1 and not v.keywords \
+                        and ("hist", "__init__") in self.tr.sigs:
+                    a, ta = self.expr(v.args[0], env)
+                    if ta != "bytes":
+                        raise Unsupported("LRUTrieWalkHistory(%s)" % ta)
+                    return "(let v_%s := py_hist_init %s in\n %s)" % (n, a, nxt(dict(env, **{n: "hist"})))
                 if not (isinstance(f, ast.Name) and f.id in ("len", "list")) and not self.is_pure_call(v, env):
                     return self.call_stmt(v, n, env, nxt)
             a, ta = self.expr(v, env)
             want = self.declared(n, ta)
             return "(let v_%s := %s in\n %s)" % (n, self.coerce(a, ta, want), nxt(dict(env, **{n: want})))
+        # ---- a, b = self.<method of the trie>(...) ----
+        if isinstance(tg, ast.Tuple) and len(tg.elts) == 2 and all(isinstance(x, ast.Name) for x in tg.elts) and isinstance(v, ast.Call):
+            return self.call_stmt(v, (tg.elts[0].id, tg.elts[1].id), env, nxt)
+        # ---- <local object>.attr = <pure expression> ----
+        if isinstance(tg, ast.Attribute) and isinstance(tg.value, ast.Name) and tg.value.id != "self" and env.get(tg.value.id) == "hist":
+            pre, attrs = ATTRS["hist"]
+            if tg.attr not in attrs or (isinstance(v, ast.Call) and not self.is_pure_call(v, env)):
+                raise Unsupported("assignment to %s.%s" % (tg.value.id, tg.attr))
+            a, ta = self.expr(v, env)
+            return "(let v_%s := %s_set_%s %s v_%s in\n %s)" % (tg.value.id, pre, tg.attr, self.coerce(a, ta, attrs[tg.attr]), tg.value.id, nxt())
         # ---- self.attr / node.attr ----
         if isinstance(tg, ast.Attribute) and isinstance(tg.value, ast.Name) and tg.value.id == "self" and self.recv_type in ATTRS:
             if tg.attr == "storage":
@@ -450,6 +514,8 @@ class Fn(object):
 
     def is_pure_call(self, c, env):
         f = c.func
+        if isinstance(f, ast.Name) and f.id in ("len", "test"):
+            return True
         if isinstance(f, ast.Attribute) and isinstance(f.value, ast.Name):
             if f.value.id == "struct":
                 return True
@@ -477,9 +543,40 @@ class Fn(object):
                     raise Unsupported("storage.write data")
                 return "(let '(sg, v_%s) := py_pm_write sg %s %s in\n %s)" % (target, a, self.coerce(b, tb, "oN"), nxt(dict(env, **{target: "N"})))
             raise Unsupported("storage call")
+        if isinstance(f.value, ast.Attribute) and isinstance(f.value.value, ast.Name) and f.value.value.id == "self" \
+                and self.recv_type in ATTRS and ATTRS[self.recv_type][1].get(f.value.attr) == "listN" and f.attr == "append" \
+                and len(c.args) == 1 and not c.keywords and target is None:
+            pre = ATTRS[self.recv_type][0]
+            a, ta = self.expr(c.args[0], env)
+            if ta != "N":
+                raise Unsupported("append of %s" % ta)
+            return "(let %s := %s_set_%s (%s_%s %s ++ [%s]) %s in\n %s)" % (self.recv, pre, f.value.attr, pre, f.value.attr, self.recv, a, self.recv, nxt())
         if not isinstance(f.value, ast.Name):
             raise Unsupported("call receiver")
         o = f.value.id
+        # ---- a method of the trie that returns a value (and the storage): None = it raised ----
+        if o == "self" and self.recv_type == "tstore" and (self.tr.sigs.get(("tstore", f.attr)) or {}).get("kind") == "tfn":
+            sig = self.tr.sigs[("tstore", f.attr)]
+            if target is None:
+                raise Unsupported("result of %s dropped" % f.attr)
+            args = self.args(c, sig, env)
+            for a_ in list(c.args) + [kw.value for kw in c.keywords]:
+                if isinstance(a_, ast.Call) and not self.is_pure_call(a_, env):
+                    raise Unsupported("effectful argument")
+            if isinstance(target, tuple):
+                if not sig["rtype"].startswith("pair:"):
+                    raise Unsupported("tuple target for %s" % f.attr)
+                _, t1, t2 = sig["rtype"].split(":")
+                pat = "(v_%s, v_%s)" % target
+                env2 = dict(env, **{target[0]: t1, target[1]: t2})
+            else:
+                want = self.declared(target, sig["rtype"])
+                if want != sig["rtype"]:
+                    raise Unsupported("%s as %s" % (sig["rtype"], want))
+                pat = "v_%s" % target
+                env2 = dict(env, **{target: want})
+            return "(match %s sg%s with\n | None => %s\n | Some (sg, %s) => %s end)" % (
+                sig["coq"], "".join(" " + x for x in args), self.fail(), pat, nxt(env2))
         # ---- set / list mutation ----
         if env.get(o) == "oNset" and f.attr == "add" and len(c.args) == 1 and target is None:
             a, ta = self.expr(c.args[0], env)
@@ -574,9 +671,15 @@ class Fn(object):
                 names.add(n.targets[0].value.id)
             if isinstance(n, ast.AugAssign) and isinstance(n.target, ast.Subscript) and isinstance(n.target.value, ast.Name):
                 names.add(n.target.value.id)
+            if isinstance(n, ast.AugAssign) and isinstance(n.target, ast.Name):
+                names.add(n.target.id)
+            if isinstance(n, ast.Assign) and isinstance(n.targets[0], ast.Attribute) and isinstance(n.targets[0].value, ast.Name):
+                names.add(n.targets[0].value.id)
+            if isinstance(n, ast.Assign) and isinstance(n.targets[0], ast.Tuple):
+                names.update(x.id for x in n.targets[0].elts if isinstance(x, ast.Name))
             if isinstance(n, ast.Call) and isinstance(n.func, ast.Attribute) and isinstance(n.func.value, ast.Name):
                 names.add(n.func.value.id)
-        names = sorted(x for x in names if x in env and env[x] in ("lnode", "olnode", "counter", "oNset", "bool", "N", "oN", "tnode", "otnode", "bytes"))
+        names = sorted(x for x in names if x in env and env[x] in ("lnode", "olnode", "counter", "oNset", "bool", "N", "oN", "tnode", "otnode", "bytes", "hist"))
         return names
 
     def loop_state(self, body, env, exclude=()):
@@ -621,7 +724,34 @@ class Fn(object):
         loop = ("(fix py_loop (fuel : nat) (st : %s) {struct fuel} : (%s + %s) :=\n match fuel with\n | O => inr st\n | S fuel' =>\n"
                 " let '%s := st in\n %s\n end)" % (ty, self.rcoq, ty, pat, step))
         prop = "(inl v__r)" if self.sum_depth else "v__r"
-        return "(match %s (S (length (pm_array sg))) %s with\n | inl v__r => %s\n | inr %s => %s end)" % (loop, pat, prop, pat, nxt())
+        return "(match %s %s %s with\n | inl v__r => %s\n | inr %s => %s end)" % (loop, self.fuel(s, env), pat, prop, pat, nxt())
+
+    def fuel(self, s, env):
+        """`while i < l:` whose body adds 1 to i exactly once, at its top level, and assigns neither i nor l anywhere else runs at
+        most l - i times; every other loop reads one more block of the store per iteration (proved in the *Facts files)"""
+        t = s.test
+        if isinstance(t, ast.Compare) and len(t.ops) == 1 and isinstance(t.ops[0], ast.Lt) and isinstance(t.left, ast.Name) \
+                and isinstance(t.comparators[0], ast.Name) and env.get(t.left.id) == "N" and env.get(t.comparators[0].id) == "N":
+            i, l = t.left.id, t.comparators[0].id
+            top = [x for x in s.body if isinstance(x, ast.AugAssign) and isinstance(x.target, ast.Name) and x.target.id == i
+                   and isinstance(x.op, ast.Add) and isinstance(x.value, ast.Constant) and x.value.value == 1]
+            others = 0
+            for n in ast.walk(ast.Module(body=list(s.body), type_ignores=[])):
+                tg = []
+                if isinstance(n, ast.Assign):
+                    tg = n.targets
+                elif isinstance(n, (ast.AugAssign, ast.AnnAssign)):
+                    tg = [n.target]
+                elif isinstance(n, ast.For):
+                    tg = [n.target]
+                for x in tg:
+                    for y in ast.walk(x):
+                        if isinstance(y, ast.Name) and y.id in (i, l):
+                            others += 1
+            if len(top) == 1 and others == 1:
+                return "(S (N.to_nat (N.sub v_%s v_%s)))" % (l, i)
+            raise Unsupported("while %s < %s: no termination argument" % (i, l))
+        return "(S (length (pm_array sg)))"
 
     def loop(self, s, env, nxt):
         if s.orelse or self.loop_k is not None:
@@ -639,7 +769,7 @@ class Fn(object):
             raise Unsupported("loop in a total function")
         loop = ("(fix py_loop (fuel : nat) (st : %s) {struct fuel} : option %s :=\n match fuel with\n | O => Some st\n | S fuel' =>\n"
                 " let '%s := st in\n if %s\n then %s\n else Some st\n end)" % (ty, ty, pat, test, body))
-        return "(match %s (S (length (pm_array sg))) %s with\n | None => None\n | Some %s => %s end)" % (loop, pat, pat, nxt())
+        return "(match %s %s %s with\n | None => None\n | Some %s => %s end)" % (loop, self.fuel(s, env), pat, pat, nxt())
 
     def forloop(self, s, env, nxt):
         if s.orelse or self.loop_k is not None:
@@ -715,7 +845,9 @@ class Translator(object):
     def method(self, cls_methods, cls_type, name, params, kind, rtype=None, recv="nd", decl=None, gen=None, defaults=None, extra_state=None):
         """kind: pure | node | node? | io | io?  (`?`: may raise).  params: [(name, type, default term or None)]"""
         key = name
-        fn = cls_methods.get(name) or cls_methods.get("_LinkStoreNode" + name) or cls_methods["_LRUTrieNode" + name]
+        fn = cls_methods.get(name) or cls_methods.get("_LinkStoreNode" + name) or cls_methods.get("_LRUTrieNode" + name)
+        if fn is None:
+            raise Unsupported("method %s not found" % name)
         want = ["self"] + [p[0] for p in params]
         if [a.arg for a in fn.args.args] != want or fn.args.vararg or fn.args.kwonlyargs or fn.args.kwarg:
             raise Unsupported("signature of %s" % name)
@@ -728,10 +860,10 @@ class Translator(object):
         opt = kind.endswith("?")
         f = Fn(self, fn, recv, cls_type, opt, rtype, gen=gen, decl=decl)
         env = dict((p[0], p[1]) for p in params)
-        prefix = {"lnode": "py_lnode_", "tnode": "py_node_"}[cls_type]
+        prefix = {"lnode": "py_lnode_", "tnode": "py_node_", "hist": "py_hist_"}[cls_type]
         coq = prefix + name.strip("_")
         ps = "".join(" (v_%s : %s)" % (p[0], COQT[p[1]]) for p in params)
-        rt = {"lnode": "py_lnode", "tnode": "py_node"}[cls_type]
+        rt = {"lnode": "py_lnode", "tnode": "py_node", "hist": "py_hist"}[cls_type]
         if kind == "pure":
             f.returns = []
             body = f.block(list(fn.body), env, lambda e2: (_ for _ in ()).throw(Unsupported("%s falls off its end" % name)))
